@@ -222,7 +222,9 @@ units / SHJ (c316963, 76fb8cc, 3bad13f), bulgarian `+1e-6` (bc1e465). Seeds 5/5.
 ≈ 25 s.
 Session 3: *history clause* for Tyrving races up to 400 m and every combined-events row: one mark is scored, another call
 for the same row happens (a hand-timed text, resp. the masters-age / ESAA options, concrete mark), the adjacent mark is
-scored - the order clause must hold, both orders. Seeds 7/7.
+scored - the order clause must hold, both orders. After the fourth seed round: hand-timed results are also asserted
+non-negative (a clamp applied before the hand-timing correction gave -38 points), and the quick tier runs every tabulated age of
+the jump / throw formulas (a retyped knee cell at age 12 of a four-age row sat between the two ages sampled before). Seeds 9/9.
 ''',
 'C06': '''**As built.** Part A as designed (all shapes, prec 0–5, LIA on digit cells).
 Part B does **not** use the IEEE model: the duration is a proxy pair
@@ -344,7 +346,11 @@ and was reverted). Spellings: bare metres, whole kilometres `N K`, tenths of a k
 outside. Seeds 4/4; *decimal-km-truncated* (`'10.5K'`) was missed until the
 `N.d K` spelling was added. Quick: 2023 table, age 47 (≈ 4 min).
 Session 3: history variants of every fourth bare-number segment (a concrete distance of the segment and a far-away
-tabulated event asked first - scratch attributes `_fx` / `_fx1` / `_pfac` and remembered positions must not leak). Seeds 6/6.
+tabulated event asked first - scratch attributes `_fx` / `_fx1` / `_pfac` and remembered positions must not leak). After the
+fourth seed round: two-decimal kilometre spellings `N.dd K` (a "strip redundant .0" helper turned `1.05K` into `15K`), and an
+exhaustive fact about the data - the distance cell of every running row agrees with the distance of its own code to 0.1 % (the
+segments are read from those cells, so a mistyped cell would move a segment boundary unnoticed; a first version also demanded
+increasing order and was wrong: track rows precede road rows). Seeds 8/8.
 ''',
 'C17': '''**As built.** As designed. Repaired: band comparison as strings (46c4a90),
 ValueError without a weight (add8c8b). Seeds 3/3 (one exposed a harness bug:
